@@ -18,52 +18,101 @@ def specStep (m : Nat) (δ : Int) (tip901 : Bool) : Int := Int.tdiv ((maxMove m 
 theorem C17_closed_form (m : Nat) (δ : Int) (tip901 : Bool) (hm : m ≤ U128_MAX)
     (hδ : -128 ≤ δ ∧ δ ≤ 127) :
     ((moveFeeMultiplier m δ tip901 : Nat) : Int) = max 0 (min ((m : Int) + specStep m δ tip901) (U128_MAX : Int)) := by
-  sorry
+  have hd := natAbs_le_128 δ hδ
+  have hs := scaled_le (feeMaxMove m tip901) δ.natAbs hd
+  have hU : U128_MAX = 340282366920938463463374607431768211455 := by decide
+  rw [moveFeeMultiplier_eq]
+  show _ = max 0 (min ((m : Int) + Int.tdiv ((feeMaxMove m tip901 : Int) * δ) 128) _)
+  by_cases h : δ ≥ 0
+  · rw [if_pos h, tdiv_mul_of_nonneg _ _ h]
+    generalize feeMaxMove m tip901 * δ.natAbs / 128 = k at *
+    omega
+  · rw [if_neg h, tdiv_mul_of_neg _ _ (by omega)]
+    generalize feeMaxMove m tip901 * δ.natAbs / 128 = k at *
+    omega
 
 /-- whenever the exact result is representable it is the result -/
 theorem C17_exact (m : Nat) (δ : Int) (tip901 : Bool) (hm : m ≤ U128_MAX) (hδ : -128 ≤ δ ∧ δ ≤ 127)
     (hlo : 0 ≤ (m : Int) + specStep m δ tip901) (hhi : (m : Int) + specStep m δ tip901 ≤ (U128_MAX : Int)) :
     ((moveFeeMultiplier m δ tip901 : Nat) : Int) = (m : Int) + specStep m δ tip901 := by
-  sorry
+  rw [C17_closed_form m δ tip901 hm hδ]
+  omega
 
 /-- for every multiplier from 2 up to 2^127 the move is exact (no clamping at all) -/
 theorem C17_exact_range (m : Nat) (δ : Int) (tip901 : Bool) (h2 : 2 ≤ m) (hm : m ≤ 2 ^ 127)
     (hδ : -128 ≤ δ ∧ δ ≤ 127) :
     ((moveFeeMultiplier m δ tip901 : Nat) : Int) = (m : Int) + specStep m δ tip901 := by
-  sorry
+  have hU : U128_MAX = 340282366920938463463374607431768211455 := by decide
+  have hd := natAbs_le_128 δ hδ
+  have hs := scaled_le (feeMaxMove m tip901) δ.natAbs hd
+  have hmm : feeMaxMove m tip901 ≤ m ∧ feeMaxMove m tip901 ≤ m / 128 + 2 := by
+    unfold feeMaxMove; split <;> omega
+  have hspec : specStep m δ tip901 = Int.tdiv ((feeMaxMove m tip901 : Int) * δ) 128 := rfl
+  apply C17_exact m δ tip901 (by omega) hδ
+  · rw [hspec]
+    by_cases h : δ ≥ 0
+    · rw [tdiv_mul_of_nonneg _ _ h]; omega
+    · rw [tdiv_mul_of_neg _ _ (by omega)]; omega
+  · rw [hspec]
+    by_cases h : δ ≥ 0
+    · rw [tdiv_mul_of_nonneg _ _ h]; omega
+    · rw [tdiv_mul_of_neg _ _ (by omega)]; omega
 
 /-- never wraps: the result is a u128, and it differs from `m` by at most `maxMove` -/
 theorem C17_no_wrap (m : Nat) (δ : Int) (tip901 : Bool) (hm : m ≤ U128_MAX) (hδ : -128 ≤ δ ∧ δ ≤ 127) :
     moveFeeMultiplier m δ tip901 ≤ U128_MAX ∧
     moveFeeMultiplier m δ tip901 ≤ m + maxMove m tip901 ∧
     m ≤ moveFeeMultiplier m δ tip901 + maxMove m tip901 := by
-  sorry
+  have hd := natAbs_le_128 δ hδ
+  have hs := scaled_le (feeMaxMove m tip901) δ.natAbs hd
+  rw [moveFeeMultiplier_eq]
+  show _ ≤ _ ∧ _ ≤ m + feeMaxMove m tip901 ∧ m ≤ _ + feeMaxMove m tip901
+  generalize feeMaxMove m tip901 * δ.natAbs / 128 = k at *
+  split <;> omega
 
 /-- a block sealed without a proposer action leaves the fee multiplier unchanged -/
 theorem C17_no_action (env : Env) (s : State) (ss : Sealed) (h : sealState env s none = .ok ss) :
     ss.st.feeMultiplier = s.feeMultiplier := by
-  sorry
+  obtain ⟨s2, hs, h⟩ := sealState_pre env s none ss h
+  cases h; exact hs.1
 
 /-- a block sealed with an action moves it by exactly `moveFeeMultiplier` -/
 theorem C17_action (env : Env) (s : State) (a : ProposerAction) (ss : Sealed)
     (h : sealState env s (some a) = .ok ss) :
     ss.st.feeMultiplier = moveFeeMultiplier s.feeMultiplier a.feeMultiplierDelta s.tip901 := by
-  sorry
+  obtain ⟨s2, hs, h⟩ := sealState_pre env s (some a) ss h
+  obtain ⟨s3, h3, h⟩ := Outcome.bind_eq_ok h
+  cases h
+  rw [applyProposerAction_feeMultiplier env s2 a s3 h3, hs.1, hs.tip901]
 
 /-- what was wrong before the `fix:` commit (finding F7): the old code panics at both ends … -/
 theorem C17_old_underflow : moveFeeMultiplierOld 1 (-128) true = none := by
-  sorry
-theorem C17_old_i64_overflow : moveFeeMultiplierOld (2 ^ 70) 127 true = none := by
-  sorry
+  decide
+theorem C17_old_i64_overflow : moveFeeMultiplierOld (2 ^ 64) 127 true = none :=
+  moveFeeMultiplierOld_2p64_true
+/-- … and from 2^70 on the `as i64` cast truncates: the move is silently wrong (2 instead of 2^63). -/
+theorem C17_old_truncates : moveFeeMultiplierOld (2 ^ 70) 127 true = some (2 ^ 70 + 1) :=
+  moveFeeMultiplierOld_2p70_true
 /-- … and the repaired code agrees with it wherever it did not panic or truncate. -/
 theorem C17_old_agrees (m : Nat) (δ : Int) (tip901 : Bool) (h2 : 2 ≤ m) (hm : m < 2 ^ 63)
     (hδ : -128 ≤ δ ∧ δ ≤ 127) :
     moveFeeMultiplierOld m δ tip901 = some (moveFeeMultiplier m δ tip901) := by
-  sorry
+  exact moveFeeMultiplierOld_agrees m δ tip901 h2 hm hδ
 
 /-- non-vacuity -/
 example : moveFeeMultiplier 1000000 (-128) true = 992188 ∧ moveFeeMultiplier 1 (-128) true = 0
     ∧ moveFeeMultiplier 100 127 true = 101 := by
-  sorry
+  decide
+
+#print axioms C17_closed_form
+#print axioms C17_exact
+#print axioms C17_exact_range
+#print axioms C17_no_wrap
+#print axioms C17_no_action
+#print axioms C17_action
+#print axioms C17_old_underflow
+#print axioms C17_old_i64_overflow
+#print axioms C17_old_truncates
+#print axioms C17_old_agrees
 
 end Mel
